@@ -41,9 +41,31 @@ type cliCase struct {
 	Args     []string          `json:"args,omitempty"`      // default: ["<dir>"]; "<dir>" is replaced
 	Cwd      string            `json:"cwd,omitempty"`       // "" = scratch root, "<dir>" = the case directory
 	Expect   string            `json:"expect,omitempty"`    // witnesses: "diagnostic" | "success"
+	Gen      *cliGen           `json:"gen,omitempty"`       // witnesses: g.lox produced by a generator instead of stored text
+	BudgetS  int               `json:"budget_s,omitempty"`  // witnesses: the only timeout of this case (no retry)
+	Tier     string            `json:"tier,omitempty"`      // witnesses: "thorough" = skipped in the quick tier
 	What     string            `json:"what,omitempty"`
 	// harness-internal
 	Lox string `json:"lox,omitempty"` // witness files of the generic `witness` family carry the text here
+}
+
+// cliGen names a generated input that is too large to store.
+//
+//	nested_parens N   @lexer A = (((…'a'…))) with N levels
+//	macro_doubling N  @macro M0 = 'a' | 'b'; Mi = Mi-1 Mi-1 (i ≤ N); A = MN
+type cliGen struct {
+	Name string `json:"name"`
+	N    int    `json:"n"`
+}
+
+func (g *cliGen) text() string {
+	switch g.Name {
+	case "nested_parens":
+		return "@lexer\nA = " + strings.Repeat("(", g.N) + "'a'" + strings.Repeat(")", g.N) + "\n@parser\n@start s = A\n"
+	case "macro_doubling":
+		return macroBomb(g.N)
+	}
+	return ""
 }
 
 func (c *cliCase) put(name string, data []byte) {
@@ -108,6 +130,14 @@ func (c *cliCase) write(dir string) error {
 		data, _ := c.get(n)
 		if err := os.WriteFile(filepath.Join(dir, n), data, 0o644); err != nil {
 			return err
+		}
+	}
+	if c.Gen != nil {
+		if err := os.WriteFile(filepath.Join(dir, "g.lox"), []byte(c.Gen.text()), 0o644); err != nil {
+			return err
+		}
+		if _, has := c.get("p.go"); !has {
+			os.WriteFile(filepath.Join(dir, "p.go"), []byte(strings.ReplaceAll(permissiveGo, "PKG", filepath.Base(dir))), 0o644)
 		}
 	}
 	return nil
@@ -701,12 +731,16 @@ func runCLIJobs(bin string, jobs []*cliJob, par int, t1, t2 time.Duration) {
 				return
 			}
 			args, cwd := j.args()
-			j.res = runCLI(bin, args, cwd, t1)
+			t := t1
+			if j.c.BudgetS > 0 {
+				t = time.Duration(j.c.BudgetS) * time.Second
+			}
+			j.res = runCLI(bin, args, cwd, t)
 		}(j)
 	}
 	wg.Wait()
 	for _, j := range jobs {
-		if j.res.TimedOut {
+		if j.res.TimedOut && j.c.BudgetS == 0 {
 			j.slow = true
 			os.RemoveAll(j.dir)
 			j.c.write(j.dir)
@@ -764,7 +798,7 @@ func compileBatch(root string, jobs []*cliJob) map[string]string {
 	return fails
 }
 
-func loadCLIWitnesses(globs []string) []*cliCase {
+func loadCLIWitnesses(globs []string, tier string) []*cliCase {
 	var out []*cliCase
 	for _, a := range globs {
 		files, _ := filepath.Glob(a)
@@ -778,7 +812,10 @@ func loadCLIWitnesses(globs []string) []*cliCase {
 			if json.Unmarshal(data, &w) != nil || w.ID == "" {
 				continue
 			}
-			if len(w.Files) == 0 && len(w.FilesB64) == 0 && w.Lox != "" {
+			if w.Tier == "thorough" && tier != "thorough" {
+				continue
+			}
+			if len(w.Files) == 0 && len(w.FilesB64) == 0 && w.Lox != "" && w.Gen == nil {
 				w.Files = map[string]string{"g.lox": w.Lox, "p.go": strings.ReplaceAll(permissiveGo, "PKG", "w")}
 			}
 			w.Lox = ""
@@ -968,7 +1005,7 @@ func init() {
 				cases = append(cases, &cc)
 			}
 		} else {
-			cases = append(cases, loadCLIWitnesses(c.Args)...)
+			cases = append(cases, loadCLIWitnesses(c.Args, c.Tier)...)
 			// stale output of a different grammar and package name, used by some variants
 			stale := map[string]string{}
 			{
